@@ -63,6 +63,18 @@ func Yield()
 // WaitUntil blocks the calling thread until f() holds.
 func WaitUntil(f func() bool)
 func Tier() int
+
+// FreeRun (native replay only; no effect in the engine) switches the
+// cooperative scheduler off: threads run as ordinary goroutines and the
+// recorded schedule is ignored. For entries whose counterexamples reproduce
+// from the recorded DATA alone (the harness arranges the decisive ordering
+// natively by other means, e.g. a batching window).
+func FreeRun()
+
+// NoBlock runs f. In the engine a thread that can never continue is a
+// "no-deadlock" violation as everywhere; natively f runs under a watchdog and
+// not returning within a few seconds fails "no-deadlock".
+func NoBlock(f func())
 func Symbolic() bool
 func Concrete(v int) int
 func ConcreteU64(v uint64) uint64
